@@ -1204,6 +1204,11 @@ type modTarget struct {
 
 func (vc *VC) havocLoop(st *State, f *Frame, li *loopInfo) {
 	T := vc.eng.st
+	allocAtEntry := st.alloc
+	// the allocation frontier at the start of an arbitrary iteration: facts about havocked values refer to it
+	na := vc.fresh("alloc", sortInt)
+	st.assume(Bin(sortBool, ">=", na, st.alloc))
+	st.alloc = na
 	// header phis
 	for _, ins := range li.header.Instrs {
 		phi, ok := ins.(*ssa.Phi)
@@ -1219,11 +1224,12 @@ func (vc *VC) havocLoop(st *State, f *Frame, li *loopInfo) {
 		_ = old
 	}
 	mods := vc.loopMods(f.fn, li, map[*ssa.Function]bool{})
-	allocAtEntry := st.alloc
+
 	type heapPlan struct {
 		full    bool
 		newOnly bool
 		refs    []*Term
+		refTys  []types.Type
 		sort    *Sort // object sort (obj) or element sort (arr)
 		arr     bool
 	}
@@ -1249,6 +1255,11 @@ func (vc *VC) havocLoop(st *State, f *Frame, li *loopInfo) {
 			if m.ref != nil {
 				if pv, ok := f.regs[m.ref].(*Ptr); ok && len(pv.Path) == 0 {
 					p.refs = append(p.refs, pv.Base)
+					var ty types.Type
+					if pt, ok := m.ref.Type().Underlying().(*types.Pointer); ok {
+						ty = pt.Elem()
+					}
+					p.refTys = append(p.refTys, ty)
 					continue
 				}
 			}
@@ -1310,9 +1321,11 @@ func (vc *VC) havocLoop(st *State, f *Frame, li *loopInfo) {
 			}
 			continue
 		}
-		for _, r := range p.refs {
+		for i, r := range p.refs {
 			fv := vc.fresh("lh", cur.Sort.Elem)
-			if !p.arr && p.sort.Kind == KStruct && p.sort.Go != nil {
+			if !p.arr && p.refTys[i] != nil {
+				vc.typeFacts(st, fv, p.refTys[i])
+			} else if !p.arr && p.sort.Kind == KStruct && p.sort.Go != nil {
 				vc.typeFacts(st, fv, p.sort.Go)
 			} else if !p.arr && p.sort.Kind == KBig {
 				st.assume(And(Bin(sortBool, ">=", bigBuf(fv), IntLit(0)), Bin(sortBool, "<=", bigBuf(fv), st.alloc)))
@@ -1341,10 +1354,7 @@ func (vc *VC) havocLoop(st *State, f *Frame, li *loopInfo) {
 			vc.measureIterHavoc(st, f, itv, it)
 		}
 	}
-	// allocation counter and clock only grow
-	na := vc.fresh("alloc", sortInt)
-	st.assume(Bin(sortBool, ">=", na, st.alloc))
-	st.alloc = na
+	// the clock only grows
 	for _, m := range mods {
 		if m.kind == "clock" || m.kind == "all" {
 			nc := vc.fresh("clock", sortInt)
@@ -1569,6 +1579,23 @@ func (vc *VC) clauseProps(c *Contract, cl *Clause) []string {
 // current loop, a variable bound once, or a variable living in a cell (read in the current state).
 func (vc *VC) localByName(env *Env, name string) (SV, bool) {
 	f := env.frame
+	// a variable that is reassigned in the current loop is its header phi (under old(...), a
+	// parameter denotes its entry value instead)
+	isParam := false
+	for _, p := range f.fn.Params {
+		if p.Name() == name {
+			isParam = true
+		}
+	}
+	if env.loop != nil && !(env.inOld && isParam) {
+		for _, ins := range env.loop.header.Instrs {
+			if phi, ok := ins.(*ssa.Phi); ok && phi.Comment == name {
+				if v, ok := f.regs[phi]; ok {
+					return SV{vc.term(env.st, v, "spec"), phi.Type()}, true
+				}
+			}
+		}
+	}
 	for _, p := range f.fn.Params {
 		if p.Name() == name {
 			if v, ok := f.regs[p]; ok {
@@ -1611,6 +1638,17 @@ func (vc *VC) localByName(env *Env, name string) (SV, bool) {
 			if phi, ok := ins.(*ssa.Phi); ok && phi.Comment == name {
 				if v, ok := f.regs[phi]; ok {
 					return SV{vc.term(env.st, v, "spec"), phi.Type()}, true
+				}
+			}
+		}
+	}
+	// a variable that lives in a cell (address taken, named result, assigned in several places): read the cell
+	for _, b := range f.fn.Blocks {
+		for _, ins := range b.Instrs {
+			if a, ok := ins.(*ssa.Alloc); ok && a.Comment == name {
+				if v, ok := f.regs[a]; ok {
+					pt := a.Type().(*types.Pointer).Elem()
+					return SV{vc.load(env.st, vc.asPtr(v, pt)), pt}, true
 				}
 			}
 		}
